@@ -129,6 +129,12 @@ def check_case(ctx, case, rng, shapes):
                     p = rng.randint(1, 5) * 16
                     pre = bytes(rng.randrange(256) for _ in range(p))
                     compare_pair(ctx, case, cfgd, Tc, Ti, pre + inp, p, label="offset")
+                    if not align:
+                        # packed structures may start anywhere (for aligned ones C09 restricts the claim to aligned
+                        # start positions: unaligned starts mix absolute and relative alignment in both readers)
+                        q = rng.randint(1, 40) | 1
+                        pre = bytes(rng.randrange(256) for _ in range(q))
+                        compare_pair(ctx, case, cfgd, Tc, Ti, pre + inp, q, label="odd-offset")
                     if used:
                         cuts = range(used) if (thorough and used <= 48) else sorted(
                             {0, used - 1, max(0, used - 2), used // 2, *[rng.randrange(used) for _ in range(3)]})
